@@ -99,6 +99,12 @@ def body_script(name, c, idx, nodes, abs_prefix):
             parts.append("if [ -f %s ]; then cat %s; else printf '?'; fi; printf ';'" % (P(n), P(n)))
         return parts
     for j, o in enumerate(c["outs"], 1):
+        if nodes[o]["kind"] == "dir":         # a directory output: create it, (re)write one file inside, stamp both
+            d = shlex.quote(nodes[o]["path"]); f = shlex.quote(nodes[o]["inner"])
+            parts = ["printf '%%s' %s" % shlex.quote("%s#%d[" % (c["tag"], j))] + cat(c["ins"]) + ["printf ']{'"] + cat(c["reads"]) + ["printf '}'"]
+            L.append("mkdir -p " + d); L.append("{ " + "; ".join(parts) + "; } > " + f)
+            L += ["touch -d @$((V+%d)) %s" % (idx, f), "touch -d @$((V+%d)) %s" % (idx, d)]
+            continue
         if nodes[o]["kind"] != "file": continue
         parts = ["printf '%%s' %s" % shlex.quote("%s#%d[" % (c["tag"], j))] + cat(c["ins"]) + ["printf ']{'"] + cat(c["reads"]) + ["printf '}'"]
         par = os.path.dirname(nodes[o]["path"])
@@ -294,6 +300,6 @@ def finish_case(case):
             fs0.setdefault(d, dict(t="dir" if fs0[p]["t"] != "none" else "none", c=""))
             if fs0[p]["t"] != "none": fs0[d]["t"] = "dir"
             d = os.path.dirname(d)
-    case["nodes_spec"] = {n: dict(kind=v["kind"], path=v["path"], filt=v["filt"]) for n, v in case["nodes"].items()}
+    case["nodes_spec"] = {n: dict(kind=v["kind"], path=v["path"], filt=v["filt"], inner=v.get("inner", "")) for n, v in case["nodes"].items()}
     case.setdefault("paths", {})
     return case
